@@ -248,3 +248,174 @@ theorem approx_tie (f : List Int) (t : Int) (hs : f.Pairwise (· ≤ ·)) :
   simpa [len] using this
 
 end AC.HeurTie
+
+namespace AC.HeurTie
+open AC.Gen.Program AC.GoPrim AC.BigPrim P
+
+theorem lt_two_pow_bitLenN (x : Nat) : x < 2 ^ bitLenN x := by
+  have h := (P.HX.bitLen_spec x).1
+  have : P.HX.bitLen x = bitLenN x := rfl
+  rwa [this] at h
+
+theorem bCmp_gt_one (k : Int) : (bCmp k 1 > 0) ↔ k > 1 := by
+  unfold bCmp
+  by_cases h : k < 1
+  · simp [h]; omega
+  · by_cases h0 : k = 1 <;> simp [h, h0] <;> omega
+
+theorem dyadicK_fuel : ∀ (f f' : Nat) (k : Int), 0 ≤ k → k < 2 ^ f → k < 2 ^ f' → dyadicK f k = dyadicK f' k := by
+  intro f
+  induction f with
+  | zero =>
+    intro f' k h0 h1 _
+    have hk : ¬ k > 1 := by simp at h1; omega
+    cases f' with
+    | zero => rfl
+    | succ f' => simp [dyadicK, hk]
+  | succ f ih =>
+    intro f' k h0 h1 h2
+    cases f' with
+    | zero =>
+      have hk : ¬ k > 1 := by simp at h2; omega
+      simp [dyadicK, hk]
+    | succ f' =>
+      simp only [dyadicK]
+      by_cases hk : k > 1
+      · simp only [hk, if_true]
+        have hh : k / 2 < 2 ^ f := by
+          have : k < 2 * 2 ^ f := by rw [Int.pow_succ] at h1; omega
+          omega
+        have hh' : k / 2 < 2 ^ f' := by
+          have : k < 2 * 2 ^ f' := by rw [Int.pow_succ] at h2; omega
+          omega
+        rw [ih f' (k / 2) (by omega) hh hh']
+      · simp [hk]
+
+theorem dyadic_loop_tie (n : Int) : ∀ (m : Nat) (k : Int) (ks : List Int), 0 ≤ k → k < 2 ^ m →
+    contfracDyadicStrategyK_loop1 m n ks k 1 = some (ks ++ dyadicK m k) := by
+  intro m
+  induction m with
+  | zero =>
+    intro k ks h0 h1
+    have hk : ¬ k > 1 := by simp at h1; omega
+    simp [contfracDyadicStrategyK_loop1, bCmp_gt_one, hk, dyadicK]
+  | succ m ih =>
+    intro k ks h0 h1
+    simp only [contfracDyadicStrategyK_loop1, bCmp_gt_one, dyadicK]
+    by_cases hk : k > 1
+    · have hh : k / 2 < 2 ^ m := by
+        have : k < 2 * 2 ^ m := by rw [Int.pow_succ] at h1; omega
+        omega
+      have hr : bRsh k 1 = k / 2 := by simp [bRsh, Int.shiftRight_eq_div_pow]
+      have := ih (k / 2) (ks ++ [k]) (by omega) hh
+      simp only [hk, decide_true, if_true, AC.Gen.Bigint.clone, bSet, hr]
+      simpa using this
+    · simp [hk]
+
+theorem dyadicK_tie (n : Int) (hn : 0 ≤ n) : contfracDyadicStrategyK n = some (Strategy.K .dyadic n) := by
+  unfold contfracDyadicStrategyK Strategy.K
+  have hr : bRsh n 1 = n / 2 := by simp [bRsh, Int.shiftRight_eq_div_pow]
+  have hk0 : 0 ≤ n / 2 := by omega
+  have hfuel : Int.toNat (bBitLen (n / 2) + 1) = bitLenN (n / 2).toNat + 1 := by
+    rw [bBitLen_nonneg _ hk0]; omega
+  have h1 : n / 2 < 2 ^ (bitLenN (n / 2).toNat + 1) := by
+    have := lt_two_pow_bitLenN (n / 2).toNat
+    have h2 : ((n / 2).toNat : Int) < 2 ^ (bitLenN (n / 2).toNat + 1) := by
+      have : (n / 2).toNat < 2 ^ (bitLenN (n / 2).toNat + 1) :=
+        Nat.lt_of_lt_of_le this (Nat.pow_le_pow_right (by omega) (by omega))
+      exact_mod_cast this
+    omega
+  have h2 : n / 2 < 2 ^ (bitLenN n.toNat) := by
+    have := lt_two_pow_bitLenN n.toNat
+    have h3 : (n.toNat : Int) < 2 ^ (bitLenN n.toNat) := by exact_mod_cast this
+    omega
+  have hone : AC.Gen.Bigint.one = 1 := rfl
+  simp only [hr, hfuel, hone, bind, Option.bind]
+  rw [dyadic_loop_tie n _ (n / 2) [] hk0 h1, dyadicK_fuel _ (bitLenN n.toNat) (n / 2) hk0 h1 h2]
+  simp
+
+end AC.HeurTie
+
+namespace AC.HeurTie
+open AC.Gen.Program AC.GoPrim AC.BigPrim P
+
+theorem div_pow_lt (k : Int) (s m : Nat) (h0 : 0 ≤ k) (hs : 1 ≤ s) (h : k < 2 ^ (m + 1)) : k / 2 ^ s < 2 ^ m := by
+  have hpos : (0 : Int) < 2 ^ s := two_pow_pos_int s
+  have hq0 : 0 ≤ k / 2 ^ s := Int.ediv_nonneg h0 (by omega)
+  have hp : (2 : Int) ≤ 2 ^ s := by
+    obtain ⟨s', rfl⟩ : ∃ s', s = s' + 1 := ⟨s - 1, by omega⟩
+    have := two_pow_pos_int s'
+    rw [Int.pow_succ]; omega
+  have h3 : k / 2 ^ s * 2 ≤ k / 2 ^ s * 2 ^ s := Int.mul_le_mul_of_nonneg_left hp hq0
+  have h4 : k / 2 ^ s * 2 ^ s ≤ k := Int.ediv_mul_le k (by omega)
+  have h5 : k < 2 * 2 ^ m := by rw [Int.pow_succ] at h; omega
+  omega
+
+theorem fermatK_fuel : ∀ (f f' : Nat) (k : Int) (s : Nat), 0 ≤ k → 1 ≤ s → k < 2 ^ f → k < 2 ^ f' →
+    fermatK f k s = fermatK f' k s := by
+  intro f
+  induction f with
+  | zero =>
+    intro f' k s h0 _ h1 _
+    have hk : ¬ k > 1 := by simp at h1; omega
+    cases f' with
+    | zero => rfl
+    | succ f' => simp [fermatK, hk]
+  | succ f ih =>
+    intro f' k s h0 hs h1 h2
+    cases f' with
+    | zero =>
+      have hk : ¬ k > 1 := by simp at h2; omega
+      simp [fermatK, hk]
+    | succ f' =>
+      simp only [fermatK]
+      by_cases hk : k > 1
+      · simp only [hk, if_true]
+        rw [ih f' (k / 2 ^ s) (2 * s) (Int.ediv_nonneg h0 (by have := two_pow_pos_int s; omega)) (by omega)
+          (div_pow_lt k s f h0 hs h1) (div_pow_lt k s f' h0 hs h2)]
+      · simp [hk]
+
+theorem fermat_loop_tie (n : Int) : ∀ (m : Nat) (k : Int) (s : Nat) (ks : List Int), 0 ≤ k → 1 ≤ s → k < 2 ^ m →
+    contfracFermatStrategyK_loop1 m n ks k 1 s = some (ks ++ fermatK m k s) := by
+  intro m
+  induction m with
+  | zero =>
+    intro k s ks h0 _ h1
+    have hk : ¬ k > 1 := by simp at h1; omega
+    simp [contfracFermatStrategyK_loop1, bCmp_gt_one, hk, fermatK]
+  | succ m ih =>
+    intro k s ks h0 hs h1
+    simp only [contfracFermatStrategyK_loop1, bCmp_gt_one, fermatK]
+    by_cases hk : k > 1
+    · have hr : bRsh k s = k / 2 ^ s := by simp [bRsh, Int.shiftRight_eq_div_pow]
+      have := ih (k / 2 ^ s) (s * 2) (ks ++ [k]) (Int.ediv_nonneg h0 (by have := two_pow_pos_int s; omega))
+        (by omega) (div_pow_lt k s m h0 hs h1)
+      rw [Nat.mul_comm s 2] at this
+      simp only [hk, decide_true, if_true, AC.Gen.Bigint.clone, bSet, hr, Nat.mul_comm s 2]
+      simpa using this
+    · simp [hk]
+
+theorem fermatK_tie (n : Int) (hn : 0 ≤ n) : contfracFermatStrategyK n = some (Strategy.K .fermat n) := by
+  unfold contfracFermatStrategyK Strategy.K
+  have hr : bRsh n 1 = n / 2 := by simp [bRsh, Int.shiftRight_eq_div_pow]
+  have hk0 : 0 ≤ n / 2 := by omega
+  have hfuel : Int.toNat (bBitLen (n / 2) + 1) = bitLenN (n / 2).toNat + 1 := by
+    rw [bBitLen_nonneg _ hk0]; omega
+  have h1 : n / 2 < 2 ^ (bitLenN (n / 2).toNat + 1) := by
+    have := lt_two_pow_bitLenN (n / 2).toNat
+    have h2 : ((n / 2).toNat : Int) < 2 ^ (bitLenN (n / 2).toNat + 1) := by
+      have : (n / 2).toNat < 2 ^ (bitLenN (n / 2).toNat + 1) :=
+        Nat.lt_of_lt_of_le this (Nat.pow_le_pow_right (by omega) (by omega))
+      exact_mod_cast this
+    omega
+  have h2 : n / 2 < 2 ^ (bitLenN n.toNat) := by
+    have := lt_two_pow_bitLenN n.toNat
+    have h3 : (n.toNat : Int) < 2 ^ (bitLenN n.toNat) := by exact_mod_cast this
+    omega
+  have hone : AC.Gen.Bigint.one = 1 := rfl
+  simp only [hr, hfuel, hone, bind, Option.bind]
+  rw [fermat_loop_tie n _ (n / 2) 1 [] hk0 (by omega) h1,
+    fermatK_fuel _ (bitLenN n.toNat) (n / 2) 1 hk0 (by omega) h1 h2]
+  simp
+
+end AC.HeurTie
